@@ -229,7 +229,14 @@ def run(ctx, chk):
                 ia = index_range(a)
                 ib = index_range(b)
                 key = 'alias:%s:%04x/%04x' % (buf, a['segs'][0][0], b['segs'][0][0])
-                if ia[0] <= ib[1] and ib[0] <= ia[1] and (a['segs'] != b['segs']):
+                from ..affine import diff_const as _dc
+                same_map = a['index'] == b['index'] or _dc(a['index'], b['index'], a['env'], 64) == 0
+                if same_map and a['segs'] != b['segs']:
+                    # two address ranges served by one and the same index expression (e.g. a match arm per 4K page):
+                    # distinct addresses share a cell only if that expression is not injective in the address, which
+                    # the inj:/stride: clauses decide
+                    chk.ok('C10.3', key)
+                elif ia[0] <= ib[1] and ib[0] <= ia[1] and (a['segs'] != b['segs']):
                     chk.fail('C10.3', key, 'addresses 0x%04x-0x%04x and 0x%04x-0x%04x both read %s cells [%#x,%#x] / [%#x,%#x]: '
                              'distinct addresses share storage' % (a['segs'][0][0], a['segs'][-1][1], b['segs'][0][0],
                                                                    b['segs'][-1][1], buf, ia[0], ia[1], ib[0], ib[1]),
@@ -269,10 +276,14 @@ def run(ctx, chk):
             if f['lo'] > hi or f['hi'] < lo:
                 continue
             key = 'fetch:%s:%s' % (name, '/'.join(c.split('::')[-1] for c in f['cart']) or '-')
+            fenv = f['env']
             if f['lo'] < lo or f['hi'] > hi:
-                chk.fail('C10.5', key, 'fetch range 0x%04x-0x%04x straddles the %s region' % (f['lo'], f['hi'], name),
-                         mfile, None)
-                continue
+                # one fetch handler serving several regions (e.g. work RAM and its echo with the bank chosen from an
+                # address bit): decide it per region, under the path condition restricted to that region
+                fenv = f['env'].copy()
+                if not fenv.assume(f['start'], AV(64, max(lo, f['lo']), min(hi, f['hi']))) or not absint.feasible(fenv):
+                    continue            # the path does not serve this region at all
+                f = dict(f, env=fenv, lo=max(lo, f['lo']), hi=min(hi, f['hi']))
             cands = [p for p in by_region_r.get(name, []) if p['kind'] == 'buffer' and
                      (not f['cart'] or not p['cart'] or p['cart'] == f['cart'])]
             okk = False
